@@ -45,10 +45,12 @@ def obligations(tier):
         shapes.append({"prefix": "v", "n": 2, "sep1": "", "spelling": "", "sep2": "", "num": False, "implicit_post": True})
         shapes.append({"prefix": "", "n": 2, "sep1": "", "spelling": "", "sep2": "", "num": False, "lead0": True})
     else:
-        for prefix, n, sp, sep1, sep2, num in itertools.product(("", "v"), (2, 3), ALL_SPELLINGS, ("", "-", "_", "."), ("", "-", "_", "."), (True, False)):
+        k = 0
+        for sp, sep1, sep2, num in itertools.product(ALL_SPELLINGS, ("", "-", "_", "."), ("", "-", "_", "."), (True, False)):
             if not num and sep2:
                 continue
-            shapes.append({"prefix": prefix, "n": n, "sep1": sep1, "spelling": sp, "sep2": sep2, "num": num})
+            k += 1   # prefix and release length alternate over the shapes instead of multiplying them
+            shapes.append({"prefix": ("", "v")[k % 2], "n": (2, 3)[(k // 2) % 2], "sep1": sep1, "spelling": sp, "sep2": sep2, "num": num})
         shapes.append({"prefix": "V", "n": 2, "sep1": "", "spelling": "", "sep2": "", "num": False})
         shapes.append({"prefix": "v", "n": 2, "sep1": "", "spelling": "", "sep2": "", "num": False, "implicit_post": True})
         shapes.append({"prefix": "", "n": 3, "sep1": "", "spelling": "", "sep2": "", "num": False, "lead0": True})
